@@ -69,6 +69,17 @@ def run(chk):
     if init.get("k") == "cond":
         c = strip_casts(init["c"])
         cv = locs.get(c.get("vid"), {}).get("init") if c.get("k") == "ref" else c
+        # the exact-match test may live in a predicate of its own (`is_word_literal_(text)`): judged by that function's return expression
+        cvs = strip_casts(cv or {})
+        tlocs = locs
+        if cvs.get("k") == "call" and cvs.get("fn") is not None and cvs.get("name") not in ("find", "any_of", "count", "binary_search"):
+            hfn = prog.fn_by_id(f, cvs["fn"])
+            hrets = [x for x in walk(hfn["body"]) if x.get("k") == "return" and x.get("e") is not None] if hfn is not None and hfn.get("body") else []
+            if len(hrets) == 1 and len(cvs.get("args") or []) == 1:
+                cv = hrets[0]["e"]
+                from ..paths import ref_inits as _ri
+                tlocs = dict(locs)
+                tlocs.update(_ri(hfn))
         # the guard must be an exact-match test of the text against a table of literals
         texts = [x for x in walk(cv or {}) if x.get("k") == "call" and x.get("name") in ("find", "operator==", "any_of", "count", "binary_search")]
         a_hash = [x for x in walk(init["a"]) if x.get("k") == "call" and x.get("name") == "hash"]
@@ -76,7 +87,7 @@ def run(chk):
         b_lit = all(all_literal_args(x) for x in b_hash) and bool(b_hash)
         for x in walk(cv or {}):
             if x.get("k") == "ref" and x.get("rk") == "local":
-                tv = locs.get(x.get("vid"))
+                tv = tlocs.get(x.get("vid"))
                 if tv is not None and tv.get("init") is not None:
                     table += [y["v"] for y in walk(tv["init"]) if y.get("k") == "lit" and y.get("lt") == "string"]
         ok = bool(texts) and bool(a_hash) and b_lit
@@ -217,7 +228,8 @@ def run(chk):
         want = cpp_literal_type(uns, lng, ll, base10, mag)
         if want is None:
             continue          # ill-formed in C++ (decimal, no u, beyond long long): outside the property's quantifier
-        env = {"unsigned_": bool(uns), "long_": bool(lng), "longlong_": bool(ll), "base10": base10, "base": base, "prefixed": bool(prefixed), "mag": mag}
+        env = {"unsigned_": bool(uns), "long_": bool(lng), "longlong_": bool(ll), "base10": base10, "base": base, "prefixed": bool(prefixed), "mag": mag,
+               "__locals__": named_flags(f)}
         def res(call, f=f):
             d = prog.decl(f, call.get("fn")) if call.get("fn") is not None else None
             c = (d or {}).get("cls", "")
@@ -441,6 +453,21 @@ def ret_type(prog, f, blk):
     return "?"
 
 
+def named_flags(f):
+    """bool locals that are initialised once and never assigned again (`const bool may_be_unsigned = unsigned_ || base != 10;`): vid -> initialiser"""
+    out = {}
+    assigned = set()
+    for n in walk(f["body"]):
+        if n.get("k") == "assign":
+            assigned.add(strip_casts(n["lhs"]).get("vid"))
+        elif n.get("k") == "decl":
+            for v in n["vars"]:
+                init = strip_casts(v.get("init") or {})
+                if init.get("k") in ("binop", "unop") and v.get("name") not in ("unsigned_", "long_", "longlong_"):
+                    out[v["vid"]] = v["init"]
+    return {k_: v_ for k_, v_ in out.items() if k_ not in assigned}
+
+
 def eval_ladder(ladder, env, res=None):
     for cond, typ in ladder:
         if cond is None or eval_cond(cond, env, res):
@@ -461,6 +488,8 @@ def eval_cond(e, env, res=None):
         return env[e["name"]]
     if k == "ref" and e.get("rk") == "param" and e.get("name") == "prefixed":
         return env["prefixed"]
+    if k == "ref" and e.get("rk") == "local" and e.get("vid") in env.get("__locals__", {}):
+        return eval_cond(env["__locals__"][e["vid"]], env, res)      # a named flag stands for its initialiser
     if k == "binop" and e.get("op") in ("!=", "==") and strip_casts(e["lhs"]).get("name") == "base":
         v = strip_casts(e["rhs"]).get("v")
         return (env["base"] != v) if e["op"] == "!=" else (env["base"] == v)
@@ -476,15 +505,28 @@ def eval_cond(e, env, res=None):
 
 
 def float_ladder(prog, g):
+    """[(flag tested or None, parse_num<T> chosen)] in priority order: an if / else-if / else chain, or `if (a) return ..; if (b) return ..; return ..;`"""
     out = []
-    n = next((s for s in g["body"].get("s", []) if s.get("k") == "if"), None)
+    stmts = g["body"].get("s", [])
+    i = next((k for k, s_ in enumerate(stmts) if s_.get("k") == "if"), None)
+    if i is None:
+        return out
+    n = stmts[i]
+    rest = stmts[i + 1:]
     while n is not None and n.get("k") == "if":
         c = strip_casts(n["cond"])
         out.append((c.get("name"), parse_num_type(prog, g, n["then"])))
         e = n.get("else")
         if e is not None and e.get("k") == "block" and len(e.get("s", [])) == 1 and e["s"][0].get("k") == "if":
             e = e["s"][0]
-        if e is not None and e.get("k") != "if":
+        if e is None and always_exits(n.get("then")) and rest:
+            # early-return form: the statements after the `if` are its else
+            e = rest[0]
+            rest = rest[1:]
+            if e.get("k") != "if":
+                out.append((None, parse_num_type(prog, g, e)))
+                e = None
+        elif e is not None and e.get("k") != "if":
             out.append((None, parse_num_type(prog, g, e)))
             e = None
         n = e
